@@ -339,7 +339,7 @@ pub fn run(run: &Run) {
     run.assume("foreign streams are refused when the application asks for streams of that kind (the filter runs inside accept_uni / accept_bi); the application keeps accepting");
     prop_search(
         run,
-        Search { check: "foreign-session", cases: run.tier.pick(1200, 10000), workers: 8, max_shrink_iters: 60 },
+        Search { check: "foreign-session", cases: run.tier.pick(1200, 40000), workers: 8, max_shrink_iters: 60 },
         case_strategy,
         |c| judge(|| exec(c), true, "C17:e2e:live-not-delivered"),
         |c| serde_json::to_value(c).unwrap(),
